@@ -159,6 +159,133 @@ def stepS (psBefore psAfter : PState) (ss : SState) (stepIdx : Nat) (toks : List
         | some b => fin { ss with store := ss.store.set! o.root (b.setIfInBounds k (.lit s!"w{stepIdx}")) } (some "r=ok")
         | none => fin ss none
     | _, _ => fin ss none
+  | ["clone", v] =>
+    match sObj psBefore ss v with
+    | some (_, o) =>
+      if mres != "ok" then fin ss (some "r=ok") else
+      match ss.store[o.root]? with
+      | some cells =>
+        let root := ss.store.size
+        let ss := { ss with store := ss.store.push cells }
+        fin ({ ss with objs := (ss.sync newId).objs.push (some { o with root := root, isView := false, pat := [] }) }) (some "r=ok")
+      | none => fin ss none
+    | _ => fin ss none
+  | ["shallow", v] =>
+    match sObj psBefore ss v with
+    | some (_, o) =>
+      if mres != "ok" then fin ss (some "r=ok") else
+      fin ({ ss with objs := (ss.sync newId).objs.push (some o) }) (some "r=ok")
+    | _ => fin ss none
+  | ["mat", v] =>
+    match sObj psBefore ss v with
+    | some (_, o) =>
+      if mres != "ok" then fin ss (some "r=ok") else
+      if psAfter.ds.size == psBefore.ds.size then fin ss (some "r=ok") else   -- the tensor itself was returned
+      match o.elems ss with
+      | some es =>
+        let root := ss.store.size
+        let ss := { ss with store := ss.store.push es.toArray }
+        let o' : SObj := { root := root, idx := ⟨o.idx.shape, List.range es.length⟩ }
+        fin ({ ss with objs := (ss.sync newId).objs.push (some o') }) (some "r=ok")
+      | none => fin ss none
+    | _ => fin ss none
+  | ["safeT", v, axes] =>
+    match sObj psBefore ss v, parseIntList axes with
+    | some (_, o), some ax =>
+      let n := o.idx.shape.length
+      let ax := if ax.isEmpty then (rangeI n).reverse else ax
+      if !isPerm ax n then fin ss none else
+      match o.elems ss, (⟨o.idx.shape, List.range o.idx.elems.length⟩ : LA Nat).transpose (ax.map Int.toNat) with
+      | some es, some idx' =>
+        if mres != "ok" then fin ss (some "r=ok") else
+        let root := ss.store.size
+        let ss := { ss with store := ss.store.push es.toArray }
+        let o' : SObj := { root := root, idx := idx', pending := .one ⟨o.idx.shape, List.range es.length⟩ }
+        fin ({ ss with objs := (ss.sync newId).objs.push (some o') }) (some "r=ok")
+      | _, _ => fin ss none
+    | _, _ => fin ss none
+  | ["memset", v] =>
+    match sObj psBefore ss v with
+    | some (_, o) =>
+      match ss.store[o.root]? with
+      | some b =>
+        let b' := o.idx.elems.foldl (fun b k => b.setIfInBounds k (.lit s!"w{stepIdx}")) b
+        fin { ss with store := ss.store.set! o.root b' } (some "r=ok")
+      | none => fin ss none
+    | _ => fin ss none
+  | ["zero", v] =>
+    match sObj psBefore ss v with
+    | some (_, o) =>
+      match ss.store[o.root]? with
+      | some b =>
+        let b' := o.idx.elems.foldl (fun b k => b.setIfInBounds k Val.zero) b
+        fin { ss with store := ss.store.set! o.root b' } (some "r=ok")
+      | none => fin ss none
+    | _ => fin ss none
+  | ["copy", d, v] =>
+    match sObj psBefore ss d, sObj psBefore ss v with
+    | some (did, dst), some (_, src) =>
+      if dst.idx.shape != src.idx.shape then
+        (if mres == "err" then fin ss none else fin (ss.setObj did none) none) else
+      match src.elems ss, ss.store[dst.root]? with
+      | some es, some b =>
+        let b' := (dst.idx.elems.zip es).foldl (fun b (k, v) => b.setIfInBounds k v) b
+        fin { ss with store := ss.store.set! dst.root b' } (some "r=ok")
+      | _, _ => fin ss none
+    | some (did, _), none => fin (ss.setObj did none) none
+    | _, _ => fin ss none
+  | ["copyto", v, d] =>
+    match sObj psBefore ss v, sObj psBefore ss d with
+    | some (sid, src), some (did, dst) =>
+      if sid == did then fin ss (some "r=ok") else
+      let plain (o : SObj) := !o.isView && (match o.pending with | .none => true | _ => false)
+      if plain src && plain dst && src.idx.shape == dst.idx.shape && src.col == dst.col then
+        match src.elems ss, ss.store[dst.root]? with
+        | some es, some b =>
+          let b' := (dst.idx.elems.zip es).foldl (fun b (k, v) => b.setIfInBounds k v) b
+          fin { ss with store := ss.store.set! dst.root b' } (some "r=ok")
+        | _, _ => fin ss none
+      else (if mres == "err" then fin ss none else fin (ss.setObj did none) none)
+    | _, some (did, _) => fin (ss.setObj did none) none
+    | _, _ => fin ss none
+  | ["reshape", v, dims] =>
+    match sObj psBefore ss v, parseIntList dims with
+    | some (id, o), some dims =>
+      if dims.any (· < 0) then fin (ss.setObj id none) none else
+      if totalSize dims != totalSize o.idx.shape then fin ss (some "r=err") else
+      -- the flat element sequence in the tensor's own data order is preserved
+      let newIdx : Option (LA Nat) :=
+        if !o.col then some ⟨dims, o.idx.elems⟩
+        else do
+          -- column-major listing of the old tensor, laid out column-major under the new shape
+          let colList ← ((allCoords o.idx.shape.reverse).mapM (fun c => o.idx.at c.reverse))
+          LA.tabulate dims (fun c => getI? colList (colRank dims c))
+      match newIdx with
+      | none => fin (ss.setObj id none) none
+      | some ni =>
+        if mres == "ok" then
+          fin (ss.setObj id (some { o with idx := ni, pending := .none, pat := [], ordered := false }))
+            (some (if o.isView then "r=ok|err" else "r=ok"))
+        else fin ss (some (if o.isView then "r=ok|err" else "r=ok"))
+    | _, _ => fin ss none
+  | ["calcS", v, spec] =>
+    -- the calculator must predict the shape the executed slice produces, and fail when it fails
+    match sObj psBefore ss v, parseSlList spec with
+    | some (_, o), some sls =>
+      if sls.length > o.idx.shape.length then fin ss (some "r=err") else
+      match axisSels sls o.idx.shape with
+      | .reject => fin ss (some "r=err")
+      | .undef => fin ss none
+      | .ok sels => fin ss (some s!"r=ok shape={showInts ((sels.filter (fun s => !s.drop)).map (·.n))} shapeopt={showPat (sels.map (fun s => (s.n, s.drop)))}")
+    | _, _ => fin ss none
+  | ["calcT", v, axes] =>
+    match sObj psBefore ss v, parseIntList axes with
+    | some (_, o), some ax =>
+      let n := o.idx.shape.length
+      let ax := if ax.isEmpty then (rangeI n).reverse else ax
+      if !isPerm ax n then fin ss none else
+      fin ss (some s!"r=ok shape={showInts (ax.map (fun i => (getI? o.idx.shape i).getD 1))}")
+    | _, _ => fin ss none
   | ["iter", v, script] =>
     match sObj psBefore ss v with
     | some (_, o) =>
@@ -174,7 +301,7 @@ def stepS (psBefore psAfter : PState) (ss : SState) (stepIdx : Nat) (toks : List
     | some (_, o) =>
       match o.elems ss with
       | some es =>
-        let base := s!"shape={showInts o.idx.shape} elems={showVals es}"
+        let base := s!"shape={showInts o.idx.shape} wf=1 elems={showVals es}"
         let base := if o.pat.isEmpty then base else base ++ s!" shapeopt={showPat o.pat}"
         let base := if o.ordered && !o.col then base ++ s!" raw={showVals es}" else base
         fin ss (some base)
